@@ -36,6 +36,16 @@ class C03(Prop):
                                 Kkind=(rng.choice(["none", "scalar", "vector"]) if norm else None))
             relative = rng.random() < 0.75
             m, nn = sys["m"], sys["n"]
+            if sys["Kkind"] == "matrix" and rng.random() < 0.6:
+                # strongly mixing adaptation matrices with receptor-specific baselines (the translation K.baseline then matters for membership)
+                K2 = np.eye(m) * rng.choice([1.0, 0.5, 2.0])
+                for i in range(m):
+                    for j in range(m):
+                        if i != j and rng.random() < 0.6:
+                            K2[i, j] = rng.randint(-8, 8) / 16
+                base2 = np.array([rng.randint(0, 16) / 4 for _ in range(m)])
+                if gs.well_scaled(sys["A"], sys["lb"], sys["ub"], K2, base2):
+                    sys = dict(sys, K=K2, baseline=base2, bkind="vector")
             lb = sys["lb"]; ubf = np.where(np.isfinite(sys["ub"]), sys["ub"], lb + 8.0)
             tk = rng.choice(["interior", "interior", "nearin", "outside", "outside", "nearout", "nearout", "beyond", "beyond", "face", "vertex", "near", "far"])
             via_adapt = None
